@@ -649,6 +649,9 @@ func writeFieldReadByter(name string, typ FieldType, w *iohelp.ErrorWriter, sett
 		writeLineWithTabs(w, "}", depth)
 	} else if typ.Map != nil {
 		lnName := lengthName(settings)
+		if safe {
+			writeLengthCheck(w, "4", depth)
+		}
 		writeLineWithTabs(w, lnName+" := iohelp.ReadUint32Bytes(buf[at:])", depth)
 		writeLineWithTabs(w, "at += 4", depth)
 		writeLineWithTabs(w, "%ASGN = make(%TYPE,"+lnName+")", depth, name, typ.Map.goString(settings))
